@@ -10,6 +10,7 @@
 package main
 
 import (
+	"context"
 	"encoding/json"
 	"flag"
 	"fmt"
@@ -19,6 +20,8 @@ import (
 	"strconv"
 	"strings"
 	"time"
+
+	"github.com/risor-io/risor/parser"
 
 	"verifharness/ast"
 	"verifharness/run"
@@ -32,11 +35,89 @@ func evalWorker(req N) N {
 	if m, ok := obs["msg"].(string); ok {
 		obs["msgcps"] = run.Cps(m)
 	}
+	// syntax tree of the source as the real parser sees it, compared with the
+	// tree the source was rendered from (and with the fully parenthesised rendering)
+	if norm, ok := req["norm"].(string); ok {
+		obs["tree"] = treeVerdict(src, norm)
+		if full, ok := req["src_full"].(string); ok {
+			obs["tree_full"] = treeVerdict(full, norm)
+		}
+	}
 	return obs
+}
+
+func treeVerdict(src, norm string) (verdict string) {
+	defer func() {
+		if r := recover(); r != nil {
+			verdict = "panic"
+		}
+	}()
+	prog, err := parser.Parse(context.Background(), src)
+	if err != nil {
+		return "noparse"
+	}
+	got, _ := json.Marshal(ast.Norm(ast.FromProgram(prog)))
+	if string(got) == norm {
+		return "same"
+	}
+	var a, b any
+	json.Unmarshal(got, &a)
+	json.Unmarshal([]byte(norm), &b)
+	return "differs at " + firstDiff(a, b, "")
+}
+
+func firstDiff(a, b any, path string) string {
+	switch x := a.(type) {
+	case map[string]any:
+		y, ok := b.(map[string]any)
+		if !ok {
+			return path + fmt.Sprintf(" (parsed %v, rendered-from %v)", brief(a), brief(b))
+		}
+		for k, v := range x {
+			if w, ok := y[k]; !ok {
+				return path + "." + k + " (only in parsed)"
+			} else if d := firstDiff(v, w, path+"."+k); d != "" {
+				return d
+			}
+		}
+		for k := range y {
+			if _, ok := x[k]; !ok {
+				return path + "." + k + " (only in rendered-from)"
+			}
+		}
+		return ""
+	case []any:
+		y, ok := b.([]any)
+		if !ok || len(x) != len(y) {
+			return path + fmt.Sprintf(" (parsed %v, rendered-from %v)", brief(a), brief(b))
+		}
+		for i := range x {
+			if d := firstDiff(x[i], y[i], fmt.Sprintf("%s[%d]", path, i)); d != "" {
+				return d
+			}
+		}
+		return ""
+	}
+	if fmt.Sprint(a) != fmt.Sprint(b) {
+		return path + fmt.Sprintf(" (parsed %v, rendered-from %v)", brief(a), brief(b))
+	}
+	return ""
+}
+
+func brief(v any) string {
+	b, _ := json.Marshal(v)
+	if len(b) > 120 {
+		b = b[:120]
+	}
+	return string(b)
 }
 
 func main() {
 	run.Register("eval", evalWorker)
+	run.Register("det", detWorker)
+	run.Register("roundtrip", roundtripWorker)
+	run.Register("pieces", piecesWorker)
+	run.Register("gocall", gocallWorker)
 	run.MaybeWorker()
 	if len(os.Args) < 2 {
 		fmt.Fprintln(os.Stderr, "usage: lang gen|render|rerun ...")
@@ -49,6 +130,28 @@ func main() {
 		render(os.Args[2:])
 	case "rerun":
 		rerun(os.Args[2:])
+	case "det":
+		fs := flag.NewFlagSet("det", flag.ExitOnError)
+		n := fs.Int("n", 8, "")
+		poolMode("det", os.Args[2:], func(r N, f map[string]*int) N { return N{"src": r["src"], "n": *f["n"]} },
+			map[string]*int{"n": n}, fs)
+	case "roundtrip":
+		fs := flag.NewFlagSet("roundtrip", flag.ExitOnError)
+		poolMode("roundtrip", os.Args[2:], func(r N, f map[string]*int) N { return N{"src": r["src"]} }, nil, fs)
+	case "gocall":
+		fs := flag.NewFlagSet("gocall", flag.ExitOnError)
+		poolMode("gocall", os.Args[2:], func(r N, f map[string]*int) N { return N{"src": r["src"], "calls": r["calls"]} }, nil, fs)
+	case "pieces-gen":
+		piecesGen(os.Args[2:])
+	case "pieces":
+		fs := flag.NewFlagSet("pieces", flag.ExitOnError)
+		poolMode("pieces", os.Args[2:], func(r N, f map[string]*int) N {
+			g := r["globals"]
+			if g == nil {
+				g = []any{}
+			}
+			return N{"pieces": r["pieces"], "globals": g}
+		}, nil, fs)
 	default:
 		fmt.Fprintln(os.Stderr, "unknown mode", os.Args[1])
 		os.Exit(2)
@@ -59,6 +162,13 @@ func observe(cases []N) {
 	reqs := make([]N, len(cases))
 	for i, c := range cases {
 		reqs[i] = N{"src": c["src"]}
+		if a, ok := c["ast"]; ok {
+			norm, _ := json.Marshal(ast.Norm(a))
+			reqs[i]["norm"] = string(norm)
+		}
+		if f, ok := c["src_full"]; ok {
+			reqs[i]["src_full"] = f
+		}
 	}
 	pool := run.NewPool("eval", runtime.NumCPU())
 	resps := pool.Map(reqs, 20*time.Second)
@@ -120,6 +230,7 @@ func render(args []string) {
 		prog := c["ast"].([]any)
 		if *min {
 			c["src"] = ast.RenderMin(prog)
+			c["src_full"] = ast.Render(prog)
 		} else {
 			c["src"] = ast.Render(prog)
 		}
